@@ -802,6 +802,10 @@ def arr_setitem(eng, a, idx, value):
             value = int(c)
         else:
             raise Unsupported("storing a real into an integer array")
+    if isinstance(idx, tuple) and len(idx) == 1 and isinstance(idx[0], I.Opaque) and idx[0].kind == "where":
+        idx = idx[0].data["mask"]
+    if isinstance(idx, I.Opaque) and idx.kind == "where":
+        idx = idx.data["mask"]
     if isinstance(idx, I.Arr) and idx.dtype == "bool":
         mask = idx
         if mask.ndim != a.ndim and mask.ndim != 1:
@@ -1027,6 +1031,24 @@ def size_of(shape):
     return r
 
 
+CURRENT_ENGINE = [None]
+
+
+def fdiv(a, b):
+    """Floor division that uses z3's div directly when the path condition proves the divisor positive."""
+    eng = CURRENT_ENGINE[0]
+    if T.is_sym(b) and isinstance(b, z3.ArithRef) and b.is_int() and T.is_int_valued(a) and eng is not None and eng.proves(b > 0):
+        return T.zi(a) / T.zi(b)
+    return T.floordiv(a, b)
+
+
+def fmod(a, b):
+    eng = CURRENT_ENGINE[0]
+    if T.is_sym(b) and isinstance(b, z3.ArithRef) and b.is_int() and T.is_int_valued(a) and eng is not None and eng.proves(b > 0):
+        return T.zi(a) % T.zi(b)
+    return T.mod(a, b)
+
+
 def unravel(flat, shape, order="C"):
     """Multi-index of a flat position (div/mod on possibly symbolic extents)."""
     idx = []
@@ -1042,7 +1064,7 @@ def unravel(flat, shape, order="C"):
             if k == len(shape) - 1:
                 idx.append(rem)
             else:
-                q = T.floordiv(rem, strides[k])
+                q = fdiv(rem, strides[k])
                 idx.append(q)
                 rem = T.sub(rem, T.mul(q, strides[k]))
         return idx
@@ -1052,8 +1074,8 @@ def unravel(flat, shape, order="C"):
         if k == len(shape) - 1:
             idx.append(rem)
         else:
-            idx.append(T.mod(rem, d))
-            rem = T.floordiv(rem, d)
+            idx.append(fmod(rem, d))
+            rem = fdiv(rem, d)
     return idx
 
 
@@ -1078,10 +1100,18 @@ def reshape(eng, a, newshape, order="C"):
         for d in newshape:
             if T.is_sym(d) or d != -1:
                 known = T.mul(known, d)
-        missing = T.floordiv(total, known) if not (not T.is_sym(known) and known == 1) else total
-        if not T.is_sym(missing) and not T.is_sym(total) and not T.is_sym(known):
+        if not T.is_sym(known) and known == 1:
+            missing = total
+        elif not T.is_sym(total) and not T.is_sym(known):
             if known == 0 or total % known:
                 raise I.PyRaise("ValueError", ("cannot reshape",))
+            missing = total // known
+        elif not T.is_sym(known) and _divide_product(a.shape, known) is not None:
+            missing = _divide_product(a.shape, known)
+        else:
+            # NumPy raises unless `known` divides the size: on the continuing path the quotient exists (and is unique)
+            missing = T.fresh("dim", "int")
+            eng.assume(z3.And(missing >= 0, T.zi(T.mul(missing, known)) == T.zi(total)))
         newshape = [missing if ((not T.is_sym(d)) and d == -1) else d for d in newshape]
     else:
         nt = size_of(newshape)
@@ -1095,16 +1125,76 @@ def reshape(eng, a, newshape, order="C"):
     f = a.fn
     oshape = a.shape
     newshape = tuple(T.simp(d) if T.is_sym(d) else d for d in newshape)
+    src_flat = a.flat if order == "C" else None
+    # common leading / trailing axes are passed through unchanged (no div/mod on them)
+    pre = 0
+    while pre < min(len(oshape), len(newshape)) and dim_eq(oshape[pre], newshape[pre]):
+        pre += 1
+    suf = 0
+    while suf < min(len(oshape), len(newshape)) - pre and dim_eq(oshape[len(oshape) - 1 - suf], newshape[len(newshape) - 1 - suf]):
+        suf += 1
+    if order != "C":
+        pre_f, suf_f = pre, suf
+    o_mid = oshape[pre: len(oshape) - suf]
+    n_mid = newshape[pre: len(newshape) - suf]
 
     def fn(*i):
-        if len(newshape) == len(oshape) and all(dim_eq(x, y) for x, y in zip(newshape, oshape)):
+        if len(newshape) == len(oshape) and pre == len(oshape):
             return f(*i)
+        if src_flat is not None and pre == 0:
+            return src_flat(ravel_index(i, newshape, "C"))
+        head = list(i[:pre])
+        tail = list(i[len(newshape) - suf:]) if suf else []
+        mid = list(i[pre: len(newshape) - suf])
+        if order == "C" or (not head and not tail):
+            flat = ravel_index(mid, n_mid, order) if mid else 0
+            src_mid = unravel(flat, o_mid, order) if o_mid else []
+            return f(*(head + src_mid + tail))
         flat = ravel_index(i, newshape, order)
         return f(*unravel(flat, oshape, order))
     r = I.Arr(newshape, fn, a.dtype)
+    if order == "C":
+        r.flat = src_flat if src_flat is not None else None
     r.base = a.base if a.base is not None else a
     r.base.nviews += 1
     return r
+
+
+def _try_divide(term, c):
+    """term / c when c syntactically divides the (simplified) linear term, else None."""
+    if not T.is_sym(term):
+        return term // c if term % c == 0 else None
+    t = z3.simplify(term)
+    if z3.is_int_value(t):
+        v = t.as_long()
+        return v // c if v % c == 0 else None
+    kind = t.decl().kind()
+    if kind == z3.Z3_OP_MUL:
+        ch = t.children()
+        if z3.is_int_value(ch[0]) and ch[0].as_long() % c == 0:
+            k = ch[0].as_long() // c
+            rest = ch[1] if len(ch) == 2 else z3.Product(ch[1:])
+            return rest if k == 1 else k * rest
+        return None
+    if kind == z3.Z3_OP_ADD:
+        parts = [_try_divide(x, c) for x in t.children()]
+        if all(p is not None for p in parts):
+            r = parts[0]
+            for p in parts[1:]:
+                r = T.add(r, p)
+            return r
+    return None
+
+
+def _divide_product(shape, c):
+    for k, d in enumerate(shape):
+        q = _try_divide(d, c)
+        if q is not None:
+            r = 1
+            for j, e in enumerate(shape):
+                r = T.mul(r, q if j == k else e)
+            return r
+    return None
 
 
 def ravel(eng, a):
